@@ -248,3 +248,249 @@ Proof.
     change (0 :: repeat_c 0 n0) with (repeat_c 0 (S n0)). change (39 :: repeat_c 39 n0) with (repeat_c 39 (S n0)).
     rewrite (remove_run 0 (char_count (repeat_c 0 (S n0))) rest (repeat_c 39 (S n0))); [reflexivity|]. rewrite !repeat_c_count. reflexivity.
 Qed.
+
+(* ================= the whole pattern ================= *)
+Fixpoint fits_chain (d off : Z) (F : vfields) (items : list pitem) (tail : text) : Prop :=
+  match items with [] => True | it :: tl => item_fits d off it (render 2 F tl ++ tail) /\ fits_chain d off F tl tail end.
+
+Lemma render_cons kind F it tl : render kind F (it :: tl) = render_item kind F it ++ render kind F tl.
+Proof. reflexivity. Qed.
+
+Lemma loop_back now F d n off : in_i32 d -> 0 <= n < NANOS_PER_DAY -> off_ok off -> date_fields_agree F d -> time_fields_agree F n off ->
+  forall items st tail, Forall (fun it => item_ok it = true) items -> fits_chain d off F items tail ->
+  parse_loop (parse_part now) (map part_of items) (render 2 F items ++ tail) (fst st) (snd st)
+  = Ok (fold_left apply_exp (map (item_expected d n off) items) st).
+Proof.
+  intros Hd Hn Ho Ad At. induction items as [|it tl IH]; intros st tail Hok Hfit.
+  - cbn [map parse_loop fold_left]. destruct st; reflexivity.
+  - inversion Hok as [|? ? Hi Hok']; subst. destruct Hfit as [Hf Hfit'].
+    cbn [map fold_left]. rewrite parse_loop_step, render_cons, <- app_assoc.
+    destruct (item_back now F d n off it (render 2 F tl ++ tail) Hd Hn Ho Ad At Hi Hf) as [_ B]. rewrite B. cbn [bind]. cbv zeta.
+    destruct st as [pd pt]. cbn [fst snd]. apply IH; assumption.
+Qed.
+
+(* ---------- the slots of the collected record ---------- *)
+Definition get_slot (st : pdate * ptime) (u : punit) : option Z :=
+  match u with
+  | PYear => pd_year (fst st) | PMonth => pd_month (fst st) | PDayOfMonth => pd_dom (fst st) | PDayOfYear => pd_doy (fst st)
+  | PHour => pt_hour (snd st) | PPeriod => pt_period (snd st) | PPeriodHour => pt_phour (snd st) | PMinute => pt_minute (snd st)
+  | PSecond => pt_second (snd st) | PDecis => pt_decis (snd st) | PCentis => pt_centis (snd st) | PMillis => pt_millis (snd st)
+  | PMicros => pt_micros (snd st) | PNanos => pt_nanos (snd st) | POffset => pt_offset (snd st)
+  end.
+Definition norm_slot (u : punit) (v : Z) : Z :=
+  match u with
+  | PYear | POffset => wrap_i32 v
+  | PMonth | PDayOfMonth | PDayOfYear => wrap_u32 v
+  | PPeriod => if v =? 0 then 0 else 12
+  | _ => wrap_u64 v
+  end.
+Definition punit_eqb (a b : punit) : bool :=
+  match a, b with
+  | PYear, PYear | PMonth, PMonth | PDayOfMonth, PDayOfMonth | PDayOfYear, PDayOfYear | PHour, PHour | PPeriod, PPeriod
+  | PPeriodHour, PPeriodHour | PMinute, PMinute | PSecond, PSecond | PDecis, PDecis | PCentis, PCentis | PMillis, PMillis
+  | PMicros, PMicros | PNanos, PNanos | POffset, POffset => true
+  | _, _ => false
+  end.
+Lemma punit_eqb_eq a b : punit_eqb a b = true <-> a = b.
+Proof. destruct a, b; cbn; split; intros H; try reflexivity; try discriminate; try congruence. Qed.
+Lemma get_set_same st u v : get_slot (apply_exp st (Some (u, v))) u = Some (norm_slot u v).
+Proof. destruct st as [pd pt]. destruct u; reflexivity. Qed.
+Lemma get_set_other st u v u' : u <> u' -> get_slot (apply_exp st (Some (u, v))) u' = get_slot st u'.
+Proof. intros H. destruct st as [pd pt]. destruct u, u'; try congruence; reflexivity. Qed.
+
+Definition sets_unit (u : punit) (r : option (punit * Z)) : bool := match r with Some (u', _) => punit_eqb u' u | None => false end.
+Lemma fold_slot (canon : punit -> Z) u : forall l st,
+  (forall r, In r l -> r = None \/ exists u', r = Some (u', canon u')) ->
+  get_slot (fold_left apply_exp l st) u = if existsb (sets_unit u) l then Some (norm_slot u (canon u)) else get_slot st u.
+Proof.
+  induction l as [|r l IH]; intros st Hl; [reflexivity|]. cbn [fold_left existsb].
+  rewrite IH by (intros r' Hr'; apply Hl; right; exact Hr').
+  destruct (Hl r ltac:(left; reflexivity)) as [-> | [u' ->]].
+  - cbn [sets_unit orb apply_exp]. reflexivity.
+  - cbn [sets_unit]. destruct (punit_eqb u' u) eqn:E.
+    + apply punit_eqb_eq in E. subst u'. cbn [orb]. destruct (existsb (sets_unit u) l); [reflexivity | apply get_set_same].
+    + cbn [orb]. destruct (existsb (sets_unit u) l); [reflexivity|]. apply get_set_other. intros X. subst. rewrite (proj2 (punit_eqb_eq u u) eq_refl) in E. discriminate.
+Qed.
+
+(* the value each slot receives *)
+Definition canon (d n off : Z) (u : punit) : Z :=
+  let '(y, m, dd) := days_to_date d in let h := n / NANOS_PER_HOUR in let ss := n mod NANOS_PER_SEC in
+  match u with
+  | PYear => y | PMonth => m | PDayOfMonth => dd | PDayOfYear => 1 + d - rd (y, 1, 1)
+  | PHour => h | PPeriodHour => h mod 12 | PPeriod => if h <? 12 then 0 else 1
+  | PMinute => n / NANOS_PER_MINUTE mod 60 | PSecond => n / NANOS_PER_SEC mod 60
+  | PDecis => ss / 100000000 | PCentis => ss / 10000000 | PMillis => ss / 1000000 | PMicros => ss / 1000 | PNanos => ss
+  | POffset => off
+  end.
+Lemma expected_canon d n off it : item_ok it = true -> item_expected d n off it = None \/ exists u, item_expected d n off it = Some (u, canon d n off u).
+Proof.
+  intros Hi. destruct it as [c w | c k | txt | k]; cbn [item_expected]; try (left; reflexivity). unfold canon.
+  cbn [item_ok] in Hi. apply andb_true_iff in Hi as [Hw1 _]. apply Z.leb_le in Hw1.
+  destruct (is_date_sym c).
+  - unfold expected_date. destruct (days_to_date d) as [[y m] dd].
+    destruct (c =? 121); [right; exists PYear; reflexivity|]. destruct (c =? 77); [right; exists PMonth; reflexivity|].
+    destruct (c =? 100); [right; exists PDayOfMonth; reflexivity|]. destruct (c =? 68); [right; exists PDayOfYear; reflexivity | left; reflexivity].
+  - destruct (is_time_sym c); [|left; reflexivity]. unfold expected_time. destruct (days_to_date d) as [[y m] dd]. cbv zeta.
+    destruct ((c =? 72) || (c =? 107)); [right; exists PHour; reflexivity|].
+    destruct ((c =? 104) || (c =? 75)); [right; exists PPeriodHour; reflexivity|].
+    destruct (c =? 109); [right; exists PMinute; reflexivity|]. destruct (c =? 115); [right; exists PSecond; reflexivity|].
+    destruct ((c =? 97) || (c =? 98)); [right; exists PPeriod; reflexivity|].
+    destruct (c =? 110).
+    + right. unfold n_unit, n_digits. destruct (Z.ltb_spec 5 w).
+      * exists PMillis. assert (E : match w with 1 => PDecis | 2 => PCentis | 4 => PMicros | 5 => PNanos | _ => PMillis end = PMillis).
+        { destruct w as [|p|p]; try lia. do 3 (try destruct p as [p|p|]); try lia; reflexivity. }
+        rewrite E. reflexivity.
+      * assert (C : w = 1 \/ w = 2 \/ w = 3 \/ w = 4 \/ w = 5) by lia.
+        destruct C as [-> | [-> | [-> | [-> | ->]]]].
+        -- exists PDecis. reflexivity. -- exists PCentis. reflexivity. -- exists PMillis. reflexivity. -- exists PMicros. reflexivity.
+        -- exists PNanos. cbn [Z.eqb Pos.eqb n_unit]. change (10 ^ (9 - 9)) with 1. rewrite Z.div_1_r. reflexivity.
+    + destruct ((c =? 88) || (c =? 120)); [right; exists POffset; reflexivity | left; reflexivity].
+Qed.
+
+(* ================= assembling the value from the collected fields ================= *)
+Section Assemble.
+  Variables (now d n off : Z) (items : list pitem).
+  Hypothesis Hd : in_i32 d.
+  Hypothesis Hn : 0 <= n < NANOS_PER_DAY.
+  Hypothesis Ho : off_ok off.
+  Hypothesis Hok : Forall (fun it => item_ok it = true) items.
+  Let exps := map (item_expected d n off) items.
+  Let R := fold_left apply_exp exps (PD0, PT0).
+  Definition has (u : punit) : bool := existsb (sets_unit u) (map (item_expected d n off) items).
+
+  Lemma slot_R u : get_slot R u = if has u then Some (norm_slot u (canon d n off u)) else None.
+  Proof.
+    unfold R, has. rewrite (fold_slot (canon d n off) u exps (PD0, PT0)).
+    - fold exps. destruct (existsb (sets_unit u) exps); [reflexivity|]. destruct u; reflexivity.
+    - intros r Hr. unfold exps in Hr. apply in_map_iff in Hr as (it & <- & Hin). apply expected_canon. rewrite Forall_forall in Hok. apply Hok, Hin.
+  Qed.
+
+  Lemma assemble_date : has PYear = true -> (has PDayOfYear = true \/ (has PMonth = true /\ has PDayOfMonth = true)) ->
+    date_days_of (fst R) = Ok d.
+  Proof.
+    intros Hy Hmd. unfold date_days_of.
+    change (pd_doy (fst R)) with (get_slot R PDayOfYear). change (pd_year (fst R)) with (get_slot R PYear).
+    change (pd_month (fst R)) with (get_slot R PMonth). change (pd_dom (fst R)) with (get_slot R PDayOfMonth).
+    rewrite !slot_R, Hy. cbn [oz norm_slot]. unfold canon.
+    pose proof (year_i32 d Hd) as Yi. pose proof (c01_roundtrip d Hd) as RT. destruct (days_to_date_rd d) as [V Erd].
+    destruct (days_to_date d) as [[y m] dd]. destruct V as (Vy & Vm & Vd).
+    assert (Hd31 : dd <= 31) by (unfold mlen in Vd; repeat match type of Vd with context [if ?b then _ else _] => destruct b end; lia).
+    rewrite (wrap_i32_id y) by exact Yi.
+    destruct (has PDayOfYear) eqn:Hdoy.
+    - pose proof (cum_bounds y m dd Vm Vd) as Cb. unfold rd in Erd. rewrite rd_jan1.
+      assert (Hr : 1 <= 1 + d - ystart (astro y) <= ylen y) by lia.
+      rewrite wrap_u32_id by (unfold U32_MAX, ylen in *; destruct (leap y); lia).
+      destruct (year_doy_to_days_spec y (1 + d - ystart (astro y)) ltac:(lia)) as [A _]. rewrite A.
+      + f_equal. rewrite rd_jan1. lia.
+      + split; [exact Vy|]. split; [exact Hr|]. rewrite rd_jan1. replace (ystart (astro y) + (1 + d - ystart (astro y)) - 1) with d by lia. exact Hd.
+    - destruct Hmd as [X | [Hm Hdm]]; [discriminate|]. rewrite Hm, Hdm. cbn [oz].
+      rewrite !wrap_u32_id by (unfold U32_MAX; lia). exact RT.
+  Qed.
+
+  Definition sub_scale (u : punit) : Z := match u with PDecis => 100000000 | PCentis => 10000000 | PMillis => 1000000 | PMicros => 1000 | _ => 1 end.
+  Definition is_sub (u : punit) : bool := match u with PDecis | PCentis | PMillis | PMicros | PNanos => true | _ => false end.
+  Variable sel : option punit.
+  Hypothesis Hsel : match sel with Some s => is_sub s = true | None => True end.
+  Hypothesis Hsub : forall u, is_sub u = true -> has u = match sel with Some s => punit_eqb s u | None => false end.
+  Definition prec_unit : Z := match sel with Some s => sub_scale s | None => 1000000000 end.
+
+  Lemma assemble_time : (has PHour = true \/ (has PPeriodHour = true /\ has PPeriod = true)) -> has PMinute = true -> has PSecond = true ->
+    time_nanos (snd R) = n / prec_unit * prec_unit.
+  Proof.
+    intros Hh Hmi Hs. unfold time_nanos.
+    change (pt_hour (snd R)) with (get_slot R PHour). change (pt_phour (snd R)) with (get_slot R PPeriodHour).
+    change (pt_period (snd R)) with (get_slot R PPeriod). change (pt_minute (snd R)) with (get_slot R PMinute).
+    change (pt_second (snd R)) with (get_slot R PSecond). change (pt_decis (snd R)) with (get_slot R PDecis).
+    change (pt_centis (snd R)) with (get_slot R PCentis). change (pt_millis (snd R)) with (get_slot R PMillis).
+    change (pt_micros (snd R)) with (get_slot R PMicros). change (pt_nanos (snd R)) with (get_slot R PNanos).
+    rewrite !slot_R, Hmi, Hs. rewrite (Hsub PDecis eq_refl), (Hsub PCentis eq_refl), (Hsub PMillis eq_refl), (Hsub PMicros eq_refl), (Hsub PNanos eq_refl).
+    cbn [oz norm_slot]. unfold canon. destruct (days_to_date d) as [[y m] dd].
+    set (h := n / NANOS_PER_HOUR). set (mi := n / NANOS_PER_MINUTE mod 60). set (s := n / NANOS_PER_SEC mod 60). set (ss := n mod NANOS_PER_SEC).
+    assert (Bh : 0 <= h < 24) by (subst h; revert Hn; unfold_consts; intros; lia).
+    assert (Bmi : 0 <= mi < 60) by (subst mi; lia). assert (Bs : 0 <= s < 60) by (subst s; lia).
+    assert (Bss : 0 <= ss < 1000000000) by (subst ss; unfold NANOS_PER_SEC; lia).
+    assert (Hsum : (h * 3600 + mi * 60 + s) * 1000000000 + ss = n) by (subst h mi s ss; revert Hn; unfold_consts; intros; lia).
+    assert (W : forall x, 0 <= x < 1000000000 -> wrap_u64 x = x) by (intros; unfold wrap_u64; lia).
+    assert (Hour : (match (if has PHour then Some (wrap_u64 h) else None) with
+                    | Some h0 => h0 * 3600 * NANOS_PER_SEC
+                    | None => (oz (if has PPeriodHour then Some (wrap_u64 (h mod 12)) else None) 0 +
+                               oz (if has PPeriod then Some (if (if h <? 12 then 0 else 1) =? 0 then 0 else 12) else None) 0) * 3600 * NANOS_PER_SEC end)
+                   = h * 3600 * NANOS_PER_SEC).
+    { destruct (has PHour); [rewrite W by lia; reflexivity|]. destruct Hh as [X | [H1 H2]]; [discriminate|]. rewrite H1, H2. cbn [oz].
+      pose proof (Z.mod_pos_bound h 12 ltac:(lia)). rewrite W by lia. destruct (Z.ltb_spec h 12); cbn [Z.eqb]; f_equal; f_equal; lia. }
+    rewrite Hour. rewrite !W by lia. clearbody h mi s ss. unfold prec_unit, NANOS_PER_SEC.
+    destruct sel as [s0|].
+    - destruct s0; try discriminate Hsel; cbn [punit_eqb oz sub_scale]; rewrite ?W by (try lia; split; [apply Z.div_pos; lia | apply Z.div_lt_upper_bound; lia]); lia.
+    - cbn [oz]. lia.
+  Qed.
+End Assemble.
+
+Definition unit_ok (U : Z) : Prop := U = 1000000000 \/ U = 100000000 \/ U = 10000000 \/ U = 1000000 \/ U = 1000 \/ U = 1.
+Lemma trunc_le U n : unit_ok U -> 0 <= n -> 0 <= n / U * U <= n.
+Proof. intros [-> | [-> | [-> | [-> | [-> | ->]]]]] H; lia. Qed.
+Lemma trunc_day U d n : unit_ok U -> 0 <= n < 86400000000000 -> d * 86400000000000 + n / U * U = (d * 86400000000000 + n) / U * U.
+Proof. intros [-> | [-> | [-> | [-> | [-> | ->]]]]] H; lia. Qed.
+Lemma trunc_range U L o : unit_ok U ->
+  -2147483648 * 86400000000000 <= L - o * 1000000000 <= 2147483647 * 86400000000000 + 86400000000000 - 1 ->
+  -2147483648 * 86400000000000 <= L / U * U - o * 1000000000 <= 2147483647 * 86400000000000 + 86400000000000 - 1.
+Proof. intros [-> | [-> | [-> | [-> | [-> | ->]]]]] H; lia. Qed.
+Lemma trunc_day' U d n : unit_ok U -> 0 <= n < NANOS_PER_DAY -> d * NANOS_PER_DAY + n / U * U = (d * NANOS_PER_DAY + n) / U * U.
+Proof. unfold NANOS_PER_DAY. apply trunc_day. Qed.
+Lemma trunc_range' U L o : unit_ok U -> inst_in_range (L - o * NANOS_PER_SEC) -> inst_in_range (L / U * U - o * NANOS_PER_SEC).
+Proof. unfold inst_in_range, MIN_I, MAX_I, I32_MIN, I32_MAX, NANOS_PER_DAY, NANOS_PER_SEC. apply trunc_range. Qed.
+Lemma prec_unit_ok sel : match sel with Some s => is_sub s = true | None => True end -> unit_ok (prec_unit sel).
+Proof. unfold prec_unit, unit_ok. destruct sel as [s0|]; [|lia]. destruct s0; intros H; try discriminate H; cbn [sub_scale]; lia. Qed.
+
+(* ================= C12 for DateTime with a full date, time of day and zone ================= *)
+Theorem dt_roundtrip now v items sel : Valid_dt v -> swf None items = true ->
+  let L := local_instant v in let d := L / NANOS_PER_DAY in let n := L mod NANOS_PER_DAY in let off := dt_off v in
+  fits_chain d off (fields_of_day d n off) items [] ->
+  has d n off items PYear = true -> (has d n off items PDayOfYear = true \/ (has d n off items PMonth = true /\ has d n off items PDayOfMonth = true)) ->
+  (has d n off items PHour = true \/ (has d n off items PPeriodHour = true /\ has d n off items PPeriod = true)) ->
+  has d n off items PMinute = true -> has d n off items PSecond = true ->
+  match sel with Some s => is_sub s = true | None => True end ->
+  (forall u, is_sub u = true -> has d n off items u = match sel with Some s => punit_eqb s u | None => false end) ->
+  has d n off items POffset = true ->
+  exists txt v', dt_format v (unparse items) = Ok txt /\ dt_parse now txt (unparse items) = Ok v' /\
+    dt_off v' = off /\ instant v' = L / prec_unit sel * prec_unit sel - off * NANOS_PER_SEC /\ Valid_dt v'.
+Proof.
+  intros Hv Hswf. cbv zeta. set (L := local_instant v). set (d := L / NANOS_PER_DAY). set (n := L mod NANOS_PER_DAY). set (off := dt_off v).
+  intros Hfit Hy Hmd Hh Hmi Hs Hsel Hsub Hz.
+  pose proof Hv as [I Lr]. fold L in Lr. destruct (split_ok L Lr) as (_ & Hdi & Hn & HLs). unfold D in *. fold d n in Hdi, Hn, HLs.
+  assert (Ho : off_ok off) by (destruct I as (_ & _ & O); exact O).
+  pose proof (swf_items_ok items None Hswf) as Hok.
+  exists (render 2 (fields_of_day d n off) items). rewrite (dt_format_items v items Hv Hswf). fold L d n off.
+  set (F := fields_of_day d n off) in *.
+  assert (Ad : date_fields_agree F d) by apply fields_date_agree. assert (At : time_fields_agree F n off) by (apply fields_time_agree; exact Hn).
+  unfold dt_parse. rewrite (tokenizer_items items Hswf).
+  rewrite <- (app_nil_r (render 2 F items)).
+  pose proof (loop_back now F d n off Hdi Hn Ho Ad At items (PD0, PT0) [] Hok Hfit) as LB. cbn [fst snd] in LB. rewrite LB. clear LB. cbn [bind].
+  pose proof (assemble_date d n off items Hdi Hok Hy Hmd) as AD.
+  pose proof (assemble_time d n off items Hn Hok sel Hsel Hsub Hh Hmi Hs) as AT.
+  pose proof (slot_R d n off items Hok POffset) as SO. rewrite Hz in SO. cbn [norm_slot] in SO.
+  assert (Ec : canon d n off POffset = off) by (unfold canon; destruct (days_to_date d) as [[? ?] ?]; reflexivity). rewrite Ec in SO.
+  assert (Ew : wrap_i32 off = off) by (unfold off_ok, SECS_PER_DAY in Ho; unfold wrap_i32; lia). rewrite Ew in SO.
+  set (R := fold_left apply_exp (map (item_expected d n off) items) (PD0, PT0)) in *. destruct R as [pd pt]. cbn [fst snd get_slot] in AD, AT, SO.
+  rewrite AD. cbn [bind]. rewrite AT.
+  pose proof (prec_unit_ok sel Hsel) as HU. set (U := prec_unit sel) in *.
+  set (tn := n / U * U).
+  assert (Htn : 0 <= tn <= n) by (apply trunc_le; [exact HU | lia]).
+  unfold time_from_nanos. destruct (Z.leb_spec NANOS_PER_DAY tn); [lia|]. cbn [bind tm_nanos]. rewrite SO.
+  destruct (c10_offset_from_seconds off) as [Oa _]. rewrite (Oa Ho). cbn [bind].
+  unfold try_remove_offset_from_dn. rewrite days_nanos_to_nanos_spec.
+  assert (HLU : d * NANOS_PER_DAY + tn = L / U * U).
+  { subst tn. rewrite <- HLs. apply trunc_day'; [exact HU | exact Hn]. }
+  assert (Hinst : instant v = L - off * NANOS_PER_SEC) by (subst L off; unfold local_instant; lia).
+  pose proof (inv_in_range v I) as Ir. rewrite Hinst in Ir.
+  assert (Rng : inst_in_range (d * NANOS_PER_DAY + tn - off * NANOS_PER_SEC)).
+  { rewrite HLU. apply trunc_range'; [exact HU | exact Ir]. }
+  destruct (split_ok _ Rng) as (E & Hq & Hr & Hsum). rewrite E. cbn [bind].
+  eexists. split; [reflexivity|]. split; [reflexivity|]. cbn [dt_off]. split; [reflexivity|].
+  unfold D in *. split.
+  - unfold instant. cbn [dt_days dt_nanos]. rewrite Hsum, HLU. reflexivity.
+  - split.
+    + unfold Inv_dt. cbn [dt_days dt_nanos dt_off]. tauto.
+    + unfold local_instant, instant. cbn [dt_days dt_nanos dt_off]. rewrite Hsum.
+      replace (d * NANOS_PER_DAY + tn - off * NANOS_PER_SEC + off * NANOS_PER_SEC) with (d * NANOS_PER_DAY + tn) by lia.
+      apply day_in_range; [exact Hdi | lia].
+Qed.
